@@ -41,8 +41,25 @@ def kernel_word(acc, fl):
     return w
 
 
-def fdinfo_bytes(pos, word, mnt_id=25, ino=3):
-    return b"pos:\t%d\nflags:\t0%o\nmnt_id:\t%d\nino:\t%d\n" % (pos, word, mnt_id, ino)
+def fdinfo_bytes(pos, word, mnt_id=25, ino=3, locks=()):
+    """fs/proc/fd.c:seq_show(): the four fixed lines, then one 'lock:' line per
+    advisory lock held through the descriptor (fs/locks.c:show_fd_locks)."""
+    out = b"pos:\t%d\nflags:\t0%o\nmnt_id:\t%d\nino:\t%d\n" % (pos, word, mnt_id, ino)
+    for i, (kind, mode, owner) in enumerate(locks, 1):
+        out += b"lock:\t%d: %s  ADVISORY  %s %d 00:19:%d 0 EOF\n" % (i, kind, mode, owner, ino)
+    return out
+
+
+def locks_of(pid, fd):
+    """Locks are no part of what open_files() reports: which descriptors hold
+    one is fixed by the descriptor number (every third holds a flock, every
+    fifth a POSIX lock as well)."""
+    out = []
+    if fd % 3 == 0:
+        out.append((b"FLOCK", b"WRITE", pid))
+    if fd % 5 == 0:
+        out.append((b"POSIX", b"READ", pid))
+    return out
 
 
 class _FdinfoRaw(simkernel._SimRaw):
@@ -64,7 +81,7 @@ class _FdinfoRaw(simkernel._SimRaw):
             d = p.fds.get(self._fd)
             if d is None or p.state == "Z":
                 raise oserr(errno.ENOENT, self._path)
-            self._data = fdinfo_bytes(d.pos, d.flags)
+            self._data = fdinfo_bytes(d.pos, d.flags, locks=locks_of(self._pid, self._fd))
         n = min(len(b), len(self._data) - self._pos)
         b[:n] = self._data[self._pos:self._pos + n]
         self._pos += n
@@ -170,6 +187,26 @@ def calibrate():
                     os.close(fd)
         if forced:
             skipped.append("flag words without O_LARGEFILE cannot be produced on this kernel (forced on open)")
+        # lock lines
+        import fcntl
+        fd = os.open(path, os.O_RDWR)
+        try:
+            fcntl.flock(fd, fcntl.LOCK_EX)
+            fcntl.lockf(fd, fcntl.LOCK_SH)
+            live = open("/proc/self/fdinfo/%d" % fd, "rb").read().split(b"\n")
+            mine = fdinfo_bytes(0, 0o100002, locks=[(b"FLOCK", b"WRITE", os.getpid()), (b"POSIX", b"READ", os.getpid())]).split(b"\n")
+            rx = re.compile(br"lock:\t\d+: (FLOCK|POSIX)  ADVISORY  (READ|WRITE) \d+ [0-9a-f]+:[0-9a-f]+:\d+ 0 EOF$")
+            n += 1
+            ll = [l for l in live if l.startswith(b"lock:")]
+            ml = [l for l in mine if l.startswith(b"lock:")]
+            if len(ll) != 2 or not all(rx.match(l) for l in ll):
+                skipped.append("lock lines of this kernel look different: %r" % (ll,))
+            elif not all(rx.match(l) for l in ml) or live.index(ll[0]) != 4:
+                bad.append("lock lines: kernel %r, renderer %r" % (ll, ml))
+        except OSError as e:
+            skipped.append("advisory locks: %s" % e)
+        finally:
+            os.close(fd)
         # closing semantics
         fd = os.open(path, os.O_RDONLY)
         fi = open("/proc/self/fdinfo/%d" % fd, "rb", buffering=0)
